@@ -464,7 +464,9 @@ def watts_strogatz_hypergraph(n, d, k, l, p, seed=None):
         if np.random.random() < p:
             to_remove.append(e)
             node = min(H.edges.members(e))
-            neighbors = np.random.choice(H.nodes, size=d - 1)
+            # d - 1 distinct nodes other than `node`, so that the new edge has size d
+            others = [n for n in H.nodes if n != node]
+            neighbors = np.random.choice(others, size=d - 1, replace=False)
             to_add.append(np.append(neighbors, node))
     H.remove_edges_from(to_remove)
     H.add_edges_from(to_add)
